@@ -48,6 +48,7 @@ func showMain(a []string) {
 	o := judge(k)
 	fmt.Printf("evaluable=%v reason=%s leaks=%+v outer=%v effective=%v\n", o.Evaluable, o.Reason, o.Leaks, o.OuterLeak, o.Effective)
 	jc := &judgeCache{m: map[string]outcome{}}
+	explainRef(k, &o, jc)
 	for _, f := range findings(k, o, jc) {
 		fmt.Println("KEY", f.Key)
 	}
